@@ -8,9 +8,61 @@ from __future__ import annotations
 from typing import Any
 
 
+class _Deferred:
+    "an element of a Select that has not been computed yet (deferred execution); a failure is raised when it is needed"
+    __slots__ = ("f", "done", "val", "exc")
+
+    def __init__(self, f):
+        self.f, self.done, self.val, self.exc = f, False, None, None
+
+    def force(self):
+        if not self.done:
+            try:
+                self.val = self.f()
+            except Exception as e:  # noqa: BLE001
+                self.exc = e
+            self.done = True
+        if self.exc is not None:
+            raise self.exc
+        return self.val
+
+
+def _force(x):
+    return x.force() if isinstance(x, _Deferred) else x
+
+
 class Seq(list):
+    """Sequences of the world.  `Select` is deferred, as in a LINQ backend and as in Python's own generator expressions
+    (Fadl/SemLazy.lean): its elements are computed when something looks at them - `First`, indexing, iteration,
+    `Where` / `SelectMany` over it, aggregation, comparison, conversion to plain data.  An element that is never looked
+    at never fails."""
+
+    def __iter__(self):
+        return (_force(x) for x in list.__iter__(self))
+
+    def __getitem__(self, i):
+        r = list.__getitem__(self, i)
+        return Seq(r) if isinstance(i, slice) else _force(r)
+
+    def __eq__(self, other):
+        return isinstance(other, list) and list(iter(self)) == list(iter(other))
+
+    def __ne__(self, other):
+        return not self.__eq__(other)
+
+    __hash__ = None
+
+    def __add__(self, other):
+        return Seq(list(list.__iter__(self)) + list(list.__iter__(other) if isinstance(other, Seq) else other))
+
+    def __contains__(self, v):
+        return any(x == v for x in self)
+
+    def __repr__(self):
+        return "Seq(" + repr(list(iter(self))) + ")"
+
     def Select(self, f):
-        return Seq(f(x) for x in self)
+        return Seq(_Deferred(lambda x=x: f(_force(x))) for x in list.__iter__(self))
 
     def Where(self, f):
         return Seq(x for x in self if f(x))
@@ -21,7 +73,7 @@ class Seq(list):
             r = f(x)
             if not isinstance(r, list):
                 raise TypeError("SelectMany: sequence expected")
-            out.extend(r)
+            list.extend(out, list.__iter__(r))
         return out
 
     def First(self):
